@@ -266,6 +266,10 @@ def rule_handwritten(prog, res):
             # the same loop in another spelling (try_for_each / match on the result, possibly through an inlined helper): C17's prefix-loop rule
             okp, dp, ntp = textrules.prefix_loop(prog, v, "util::array_string::ArrayString::<N>::try_push")
             ok = okp and any(c == "core::str::<impl str>::chars" for c in calls)
+        if not ok:
+            # one bulk copy of the longest prefix of whole characters that fits (C17's bulk-prefix idiom and its lemma)
+            okb, db = textrules.bulk_prefix_writer(prog, v)
+            ok = okb
         res.ob("Z-vis", "ArrayString visitor | pushes chars() until one does not fit (the longest fitting prefix; everything for a serialised value)", ok, str(calls), v.loc)
     # both deserialize fns go through deserialize_str with their visitor
     for name, vis in (("util::Df88591String<N>", "Str88591Visitor"), ("util::array_string::ArrayString<N>", "ArrayStringVisitor")):
